@@ -78,6 +78,24 @@ def w_density(case):
             'sub': 'repeat', 'message': 'log-likelihood differs when evaluated '
             'again after compute_sensitivities on the same arrays',
             'expected': got_tot, 'observed': again, 'behaviour': 'repeat'})
+    # ... and the caller modifies those arrays in place before evaluating again
+    if np.isfinite(exp_tot) and not case.get('ints'):
+        b_par, b_ybar, b_y = params.copy(), ybar.copy(), y.copy()
+        em.compute_log_likelihood(b_par, b_ybar, b_y)
+        b_par[0] *= 1.05
+        b_ybar[-1] *= 1.03
+        b_y[0] *= 0.97
+        e_m = float(np.sum(ref.pointwise(model, b_par, b_ybar, b_y)))
+        g_m = [em.compute_log_likelihood(b_par, b_ybar, b_y),
+               float(np.sum(em.compute_pointwise_ll(b_par, b_ybar, b_y))),
+               em.compute_sensitivities(b_par, b_ybar, S.copy(), b_y)[0]]
+        n_tr += 4
+        if not all(tol.close(g, e_m) for g in g_m):
+            viol.append({'sub': 'inplace', 'message': 'after the parameter / output '
+                         '/ observation arrays were changed in place the '
+                         'evaluations with the same array objects are not the '
+                         'documented density at the new values',
+                         'expected': e_m, 'observed': g_m, 'behaviour': 'inplace'})
     score, sens = res
     sens = np.asarray(sens, dtype=float)
     n_expected = case['p'] + ref.N_PARAMS[model]
